@@ -289,6 +289,17 @@ func (P *Program) tryReplay(dir, prop string, r *FuncResult, o *Obligation, log 
 	}
 	check := ""
 	oldDecl := ""
+	// preconditions must hold for the rendered input, otherwise the run proves nothing
+	reqGuard := ""
+	if r.Contract != nil {
+		for _, rq := range r.Contract.Requires {
+			if !goExpressible(rq.Src) {
+				fmt.Fprintf(log, "replay: precondition %q is not expressible in Go; no automatic replay\n", rq.Src)
+				return ""
+			}
+			reqGuard += fmt.Sprintf("\tif !(%s) {\n\t\tt.Skip(\"precondition not met by the rendered input\")\n\t}\n", rq.Src)
+		}
+	}
 	if o.Kind == "post" && goExpressible(stripOld(o.Src)) {
 		expr, olds := extractOld(o.Src)
 		for i, oe := range olds {
@@ -310,7 +321,7 @@ func (P *Program) tryReplay(dir, prop string, r *FuncResult, o *Obligation, log 
 		}
 		check = post + fmt.Sprintf("\tif !(%s) {\n\t\tt.Fatalf(\"REPRODUCED: postcondition %%s violated\", %q)\n\t}\n", expr, o.Src)
 	}
-	body := pre + oldDecl
+	body := pre + reqGuard + oldDecl
 	if nres > 0 {
 		body += "\t" + strings.Join(lhs, ", ") + " := " + call + "\n"
 		for _, l := range lhs {
